@@ -514,6 +514,26 @@ TEMP_PROPS = {
     "XC01": "C01", "XC03": "C03", "XC04": "C04",
 }
 
+# what is PROVED about struct-mapped objects (statements in Properties/C01.v, C03.v, C04.v; proofs in Proofs/X*.v)
+STRUCT_LEVEL = {
+    "C04": "Theorem C04_struct_never_panics (Proofs/XTotal.v): every xenv / xschema with xwf (Schema/XWf.v: wf_schema's contracts "
+           "at every node + a struct field for every property), EVERY Go value, every fuel: xunser / xvalidate / xserialize / "
+           "xcompat never return Panic. C04_struct_wf_conservative: xwf = wf_schema on schemas without struct information. "
+           "PARTIAL: termination (explicit fuel bound) is not proved; C04_struct_subdefault_cycle_refuted (D52) shows a well-formed "
+           "schema on which no fuel suffices.",
+    "C03": "Theorems C03_struct_paths_agree / C03_struct_paths_agree_verdict (Proofs/XPaths.v): validateStruct and serializeStruct "
+           "enforce one and the same predicate xstruct_native_ok (exact type T, presence rules on the set of properties present "
+           "after field extraction with the nil-pointer / nil-interface / embedded-nil-pointer / treat-empty-as-default rules, "
+           "every present field value accepted by its property type), for every descriptor in which every property has a field. "
+           "D41 (x_struct_d41_refuted) stays a known finding on the Unserialize side.",
+    "C01": "Theorem C01_struct_roundtrip_partial (Proofs/XRound.v, XRoundThm.v): for descriptors satisfying the boolean xrt_desc "
+           "(direct fields of the property's reflected type or a pointer to it, optional_fields_representable) and children that "
+           "round-trip, the value Unserialize returns passes Validate and is accepted by Serialize; key lemma "
+           "C01_struct_extract_inverts_assign; instance with proved children C01_struct_roundtrip_instance; D44 "
+           "(C01_struct_d44_refuted) is exactly the complement class. PARTIAL: the re-Unserialize conjunct and promoted "
+           "(embedded) fields are not proved (direct check of op rt).",
+}
+
 
 def register(props):
     global _P
@@ -546,7 +566,7 @@ def register(props):
             "assumptions": ["TEMPORARY pseudo-property standing for the structobj part of " + real,
                             "struct types of the harness family; exported fields only; no two struct types with identical field lists",
                             "a treat-empty-as-default property declares no default (C01 equality clauses are skipped otherwise)"],
-            "level_text": "see Proofs/XEmbed.v (conservativity) and Proofs/XStruct.v",
+            "level_text": STRUCT_LEVEL[real],
             "level_note": "Model = Schema/XSyntax.v + Schema/XOps.v + Base/XReflect.v, tied to schema/object.go by the structobj family",
             "design_ref": "DESIGN.md §5 " + real,
         }
